@@ -156,7 +156,7 @@ def run(n, seed, props):
                 orig = open(target).read()
                 open(target, "w").write(new_src)
                 try:
-                    t = subprocess.run(["/venv/bin/python", "-m", "pytest", "-q", "-x", "-p", "no:cacheprovider", "--timeout=120",
+                    t = subprocess.run(["/venv/bin/python", "-m", "pytest", "-q", "-p", "no:cacheprovider", "--timeout=120",
                                         "--continue-on-collection-errors"], cwd=wt, env=env, capture_output=True, text=True, timeout=600)
                     tail = (t.stdout.strip().splitlines() or [""])[-1]
                     suite_ok = "170 passed" in tail
